@@ -124,6 +124,7 @@ package storage
 // to the reader itself (v1) or to the payload window (v2).
 
 //@ func OpenReadable
+//@   call[carv1.ReadHeader#0] assert configured_header_limit [C09]: arg1 == sc.opts.MaxAllowedHeaderSize
 //@   let header, herr := call[carv1.ReadHeader#0]
 //@   let spos, serr := call[Seeker.Seek#0]
 //@   let v2r, nerr := call[car.NewReader#0]
